@@ -14,27 +14,48 @@ import (
 // so that Marshal/MarshalForSessionTicket reproduce the exact user-specified encoding.
 func (tp *TransportParameters) PopulateFromUQUIC(quicparams tls.TransportParameters) {
 	for pIdx, param := range quicparams {
+		// A spec may carry a parameter with a standard ID in a raw form (e.g.
+		// tls.FakeQUICTransportParameter). Such a parameter is sent as is;
+		// only the typed parameters are mirrored into tp.
 		switch param.ID() {
 		case uint64(maxIdleTimeoutParameterID):
-			tp.MaxIdleTimeout = time.Duration(param.(tls.MaxIdleTimeout)) * time.Millisecond
+			if p, ok := param.(tls.MaxIdleTimeout); ok {
+				tp.MaxIdleTimeout = time.Duration(p) * time.Millisecond
+			}
 		case uint64(initialMaxDataParameterID):
-			tp.InitialMaxData = protocol.ByteCount(param.(tls.InitialMaxData))
+			if p, ok := param.(tls.InitialMaxData); ok {
+				tp.InitialMaxData = protocol.ByteCount(p)
+			}
 		case uint64(initialMaxStreamDataBidiLocalParameterID):
-			tp.InitialMaxStreamDataBidiLocal = protocol.ByteCount(param.(tls.InitialMaxStreamDataBidiLocal))
+			if p, ok := param.(tls.InitialMaxStreamDataBidiLocal); ok {
+				tp.InitialMaxStreamDataBidiLocal = protocol.ByteCount(p)
+			}
 		case uint64(initialMaxStreamDataBidiRemoteParameterID):
-			tp.InitialMaxStreamDataBidiRemote = protocol.ByteCount(param.(tls.InitialMaxStreamDataBidiRemote))
+			if p, ok := param.(tls.InitialMaxStreamDataBidiRemote); ok {
+				tp.InitialMaxStreamDataBidiRemote = protocol.ByteCount(p)
+			}
 		case uint64(initialMaxStreamDataUniParameterID):
-			tp.InitialMaxStreamDataUni = protocol.ByteCount(param.(tls.InitialMaxStreamDataUni))
+			if p, ok := param.(tls.InitialMaxStreamDataUni); ok {
+				tp.InitialMaxStreamDataUni = protocol.ByteCount(p)
+			}
 		case uint64(initialMaxStreamsBidiParameterID):
-			tp.MaxBidiStreamNum = protocol.StreamNum(param.(tls.InitialMaxStreamsBidi))
+			if p, ok := param.(tls.InitialMaxStreamsBidi); ok {
+				tp.MaxBidiStreamNum = protocol.StreamNum(p)
+			}
 		case uint64(initialMaxStreamsUniParameterID):
-			tp.MaxUniStreamNum = protocol.StreamNum(param.(tls.InitialMaxStreamsUni))
+			if p, ok := param.(tls.InitialMaxStreamsUni); ok {
+				tp.MaxUniStreamNum = protocol.StreamNum(p)
+			}
 		case uint64(maxAckDelayParameterID):
-			tp.MaxAckDelay = time.Duration(param.(tls.MaxAckDelay)) * time.Millisecond
+			if p, ok := param.(tls.MaxAckDelay); ok {
+				tp.MaxAckDelay = time.Duration(p) * time.Millisecond
+			}
 		case uint64(disableActiveMigrationParameterID):
 			tp.DisableActiveMigration = true
 		case uint64(activeConnectionIDLimitParameterID):
-			tp.ActiveConnectionIDLimit = uint64(param.(tls.ActiveConnectionIDLimit))
+			if p, ok := param.(tls.ActiveConnectionIDLimit); ok {
+				tp.ActiveConnectionIDLimit = uint64(p)
+			}
 		case uint64(initialSourceConnectionIDParameterID):
 			srcConnIDOverride, ok := param.(tls.InitialSourceConnectionID)
 			if ok {
@@ -48,7 +69,9 @@ func (tp *TransportParameters) PopulateFromUQUIC(quicparams tls.TransportParamet
 				}
 			}
 		case uint64(maxDatagramFrameSizeParameterID):
-			tp.MaxDatagramFrameSize = protocol.ByteCount(param.(tls.MaxDatagramFrameSize))
+			if p, ok := param.(tls.MaxDatagramFrameSize); ok {
+				tp.MaxDatagramFrameSize = protocol.ByteCount(p)
+			}
 		default:
 			// ignore unknown parameters
 			continue
